@@ -1101,6 +1101,11 @@ def h_item(func, args, kwargs):
         CTX.pc.append(v.f if v.c else z3.Not(v.f))
         CTX.branches.append(("bool(tensor)", v.c, where_am_i()))
         return res
+    if isinstance(v, Sym) and not v.is_const() and v is not NAN and not x.is_floating_point():
+        # an integer-typed tensor (a count of symbolic comparisons): branch on its value at the witness
+        CTX.pc.append(eq_formula(v, Sym.const(float(res))))
+        CTX.branches.append(("int(tensor)", res, where_am_i()))
+        return res
     if isinstance(v, Sym) and not v.is_const() and v is not NAN:
         if CTX.allow_concretize:
             CTX.concretized.append(where_am_i())
@@ -1213,3 +1218,56 @@ def c_xlogy(func, args, kwargs):
 @simple(aten.special_xlog1py.default)
 def c_xlog1py(func, args, kwargs):
     return vec(lambda x, y: _xlogy(x, as_sym(y) + Sym.const(1.0)), 2)(A_(args[0]), A_(args[1]))
+
+
+# ------------------------------------------------------------------ rounding of symbolic values: concretised with a path condition
+def _round_like(kind):
+    def h(func, args, kwargs):
+        x = args[0]
+        X = A_(x)
+        out = func(*args, **kwargs)
+        for idx in np.ndindex(*X.shape):
+            s = X[idx]
+            if s is NAN or s.is_const():
+                continue
+            k = float(out[idx]) if out.dim() else float(out)
+            if kind == "floor":
+                CTX.pc.append(ge_formula_(s, Sym.const(k)))
+                CTX.pc.append(gt_formula_(Sym.const(k + 1.0), s))
+            else:
+                CTX.pc.append(gt_formula_(s, Sym.const(k - 1.0)))
+                CTX.pc.append(ge_formula_(Sym.const(k), s))
+        CTX.branches.append((kind, str(out.reshape(-1).tolist()[:6]), where_am_i()))
+        SH.put(out, conc(out), check=False)  # the integer part is a constant on this path
+        return out
+    return h
+
+
+from .core import ge_formula as ge_formula_, gt_formula as gt_formula_  # noqa: E402
+reg(aten.floor.default, aten.floor_.default)(_round_like("floor"))
+reg(aten.ceil.default, aten.ceil_.default)(_round_like("ceil"))
+
+
+@reg(aten.nonzero.default)
+def h_nonzero(func, args, kwargs):
+    """data-dependent output shape: the zero pattern observed at the witness becomes a path condition"""
+    x = args[0]
+    X = G(x)
+    out = func(*args, **kwargs)
+    for idx in np.ndindex(*X.shape):
+        v = X[idx]
+        if isinstance(v, SymB):
+            CTX.pc.append(v.f if v.c else z3.Not(v.f))
+        elif isinstance(v, Sym) and v is not NAN and not v.is_const():
+            f = eq_formula(v, Sym.const(0.0))
+            CTX.pc.append(f if v.c == 0 else z3.Not(f))
+    CTX.branches.append(("nonzero pattern", int(out.shape[0]), where_am_i()))
+    return out
+
+
+@reg(aten._to_dense.default, aten.to_dense.default)
+def h_to_dense(func, args, kwargs):
+    R = SH.get(args[0])
+    out = func(*args, **kwargs)
+    SH.put(out, as_sym_arr(R))
+    return out
